@@ -14,6 +14,9 @@ REQUIRE = {"override-used": 200, "let-sized-register": 100, "let-bound-map": 100
            "via-parser": 100, "let-count": 100}
 
 
+SWEEP = {}
+
+
 def find_lets(t, path=()):
     """Positions of ('let', name) nodes inside a raw core tree."""
     out = []
@@ -48,10 +51,18 @@ def judge(case):
     except M.OracleError as ex:
         return "inconclusive:oracle:%s" % ex, []
     fails = []
+    passed = case.get("_shared_dict")
+    if passed is None:
+        passed = dict(ov)
+    before = dict(passed)
     if via_parser:
-        o = lib.outcome(lib.parse, text, expand_let=True, override_dict=ov or None)
+        o = lib.outcome(lib.parse, text, expand_let=True, override_dict=passed or None)
     else:
-        o = lib.outcome(lib.fill_in_let, c, ov or None)
+        o = lib.outcome(lib.fill_in_let, c, passed or None)
+    if passed != before or list(passed) != list(before):
+        fails.append(("override-dictionary-modified", {"before": before, "after": dict(passed)}))
+        passed.clear()
+        passed.update(before)
     if o[0] == "jaqal":
         return "ok", [("rejected-valid-program", {"error": o[2], "ov": ov})]
     if o[0] == "exc":
@@ -146,6 +157,7 @@ def process(ctx, case, seen):
     ul = used_lets(prog)
     st, fails = judge(case)
     rec.case([prog, sorted((case.get("ov") or {}).items()), case.get("via_parser")], nontrivial=bool(ul))
+    shared = case.pop("_shared_dict", None)
     if st != "ok":
         rec.count(":".join(st.split(":")[:3]))
         if st.startswith("inconclusive"):
@@ -172,6 +184,9 @@ def process(ctx, case, seen):
         seen[key] = seen.get(key, 0) + 1
         if seen[key] > 2:
             rec.count("unminimised-repeat:" + clause)
+            continue
+        if clause == "override-dictionary-modified":
+            rec.violation(sig("C05", clause), detail, {k: v for k, v in case.items() if k != "_shared_dict"})
             continue
         base = {"ov": case.get("ov"), "via_parser": case.get("via_parser")}
         small = minimise.minimise(prog, lambda p: clause in _clauses(dict(base, prog=p)), budget=250)
@@ -204,7 +219,14 @@ def shard(ctx):
         for attempt in range(3):
             ov = make_override(rng, prog) if rng.random() < 0.8 else {}
             case = {"prog": prog, "ov": ov, "via_parser": rng.random() < 0.3}
+            if ov and rng.random() < 0.5:
+                # the caller keeps using one dictionary object for many circuits (a sweep)
+                SWEEP.clear()
+                SWEEP.update(ov)
+                case["_shared_dict"] = SWEEP
+                rec.count("shared-override-dict-calls")
             process(ctx, case, seen)
+            case.pop("_shared_dict", None)
             if i <= 2 and attempt == 0:
                 rec.sample({"ov": ov, "via_parser": case["via_parser"], "text": sx.to_text(prog)})
     monitors.report_contracts(rec)
